@@ -843,11 +843,13 @@ func (r *extRun) manyExtents(k int) error {
 	// shrink the file with the deep tree (ext4.FileSystem.Truncate rebuilds the tree from the extents that
 	// stay): the rest must read back and the image must be clean
 	if tr, ok := fs.(interface{ Truncate(string, int64) error }); ok && done >= 8 {
-		keep := done * 3 / 4
-		if e := tr.Truncate(names[0], int64(keep)*r.B); e == nil {
-			if e := check(keep); e != nil {
-				cleanup()
-				return fmt.Errorf("after Truncate to %d of %d extents: %v", keep, done, e)
+		// first by a few blocks only (a tree that was two levels deep stays two levels deep), then to 3/4
+		for _, keep := range []int{done - 3, done * 3 / 4} {
+			if e := tr.Truncate(names[0], int64(keep)*r.B); e == nil {
+				if e := check(keep); e != nil {
+					cleanup()
+					return fmt.Errorf("after Truncate to %d of %d extents: %v", keep, done, e)
+				}
 			}
 		}
 	}
